@@ -19,7 +19,7 @@ import random
 
 class St:
     """One statement."""
-    __slots__ = ("toks", "label", "cname", "role", "cons", "f08", "tags", "uid")
+    __slots__ = ("toks", "label", "cname", "role", "cons", "f08", "tags", "uid", "uid0")
 
     def __init__(self, toks, role="simple", cons=None, label=None, cname=None, f08=False,
                  tags=()):
@@ -31,6 +31,7 @@ class St:
         self.f08 = f08
         self.tags = set(tags)
         self.uid = None
+        self.uid0 = None
 
     def text(self, joiner=None):
         j = joiner or join_natural
@@ -1395,6 +1396,8 @@ def gen_program(seed, std="f2008", max_depth=3, size=1.0, nunits=None, features=
     rng = random.Random(seed)
     g = G(rng, std=std, max_depth=max_depth, size=size, features=features)
     p = g.program(nunits)
+    for i, st in enumerate(p.flat()):
+        st.uid0 = i          # stable identity, survives shrinking
     p.hits = g.hits
     p.seed = seed
     p.std = std
